@@ -168,6 +168,8 @@ type stepExpect struct {
 	setExpando string   // script-only property written (value in setExpVal)
 	setExpVal  string
 	delExpando string
+	keep       []int    // bump: the field path the Go side now holds a pointer to
+	setAlias   int      // +1: PI now aliases In; -1: PI was re-pointed
 	known      []string // classes: the step is steered around while one is active
 	waive      []string // classes: kept, but the *shape* of the failure is not asserted while active
 	classes    []string
@@ -178,7 +180,9 @@ type histState struct {
 	g        m16.GV // Go contents (by-value containers: what a Go callee receives)
 	shared   bool
 	expando  map[string]string
-	pristine bool // by-value slice: no append yet, so cap == len
+	pristine bool  // by-value slice: no append yet, so cap == len
+	kept     []int // index path of the struct field whose address the Go side kept (bump), nil = none
+	alias    bool  // Outer: PI was assigned the field In, so it points at that memory
 }
 
 func primJD(v *m16.JV) string {
@@ -254,10 +258,76 @@ func expectStep(c contSpec, st histState, s step) stepExpect {
 	case isStructCont(c):
 		sg := structGV(c, full)
 		styp := m16.TypeOf(c.T)
+		innerT := reflect.TypeOf(m16.Inner{})
+		bumped := func(path []int, x m16.GV, y *string) m16.GV { // the struct with path.X (and .Y) replaced
+			g := m16.SetPath(sg, styp, append(append([]int(nil), path...), 0), x)
+			if y != nil {
+				g = m16.SetPath(g, styp, append(append([]int(nil), path...), 1), m16.Str(*y))
+			}
+			return rewrap(full, g)
+		}
 		switch s.Op {
+		case "bump": // script: __bump(G.<field>, k) - a Go func(p *Inner, k int) that does p.X += k; p.Y = "bumped" and keeps p
+			idx := m16.ResolveField(styp, s.Key)
+			e.classes = append(e.classes, "pointer-param-to-live-field")
+			e.hard = true
+			if idx == nil || m16.FieldType(styp, idx) != innerT || c.Kind != "pstruct" {
+				e.asserted = false
+				break
+			}
+			d := m16.Denote(*s.Val, reflect.TypeOf(0), "call")
+			e.asserted = true
+			if d.St != m16.Impossible {
+				e.keep = idx // if the call goes through, the Go side holds a pointer to this field
+			}
+			switch d.St {
+			case m16.Exact:
+				cur := m16.GetPath(sg, idx)
+				xv, _ := new(big.Int).SetString(cur.Elems[0].N, 10)
+				kv, _ := new(big.Int).SetString(d.V.N, 10)
+				sum := new(big.Int).Add(xv, kv)
+				if !sum.IsInt64() {
+					e.asserted = false
+					break
+				}
+				y := "bumped"
+				e.accept = append(e.accept, bumped(idx, m16.Num(sum.String()), &y))
+				e.result = goJD(m16.Num(sum.String()))
+				e.unchanged = d.MayFail
+			case m16.Impossible:
+				e.mustLoud, e.unchanged = true, true
+			default:
+				e.asserted = false
+			}
+		case "viaptr": // Go: kept.X = v
+			e.classes = append(e.classes, "go-writes-through-kept-pointer")
+			e.hard = true
+			e.asserted = true
+			if st.kept == nil {
+				e.unchanged, e.silentOK = true, true
+				break
+			}
+			e.accept = append(e.accept, bumped(st.kept, *s.Go, nil))
 		case "set":
 			idx := m16.ResolveField(styp, s.Key)
 			_, isGoName := styp.FieldByName(s.Key)
+			if s.Val != nil && s.Val.K == "sp" && strings.HasPrefix(s.Val.S, "self:") {
+				// G.PI = G.In : a pointer field receives live Go memory, so it must point at it
+				src := m16.ResolveField(styp, strings.TrimPrefix(s.Val.S, "self:"))
+				e.classes = append(e.classes, "pointer-field-aliases-live-field")
+				e.hard = true
+				if idx == nil || src == nil || c.Kind != "pstruct" || m16.FieldType(styp, idx) != reflect.PointerTo(m16.FieldType(styp, src)) {
+					e.asserted = false
+					break
+				}
+				e.asserted = true
+				e.accept = append(e.accept, rewrap(full, m16.SetPath(sg, styp, idx, m16.Ptr(m16.GetPath(sg, src)))))
+				e.setAlias = 1
+				break
+			}
+			if f, ok := styp.FieldByName("PI"); ok && idx != nil && len(idx) == 1 && idx[0] == f.Index[0] {
+				e.setAlias = -1
+			}
 			switch {
 			case idx != nil:
 				if c.Kind == "vstruct" {
@@ -359,6 +429,9 @@ func expectStep(c contSpec, st histState, s step) stepExpect {
 			e.asserted = false
 			e.classes = append(e.classes, "go-side-mutation")
 			e.hard = true
+			if s.Key == "PI" {
+				e.setAlias = -1
+			}
 		}
 
 	case semKind(c) == "map":
@@ -747,6 +820,9 @@ func checkView(c contSpec, o stepObs, expando map[string]string) string {
 }
 
 func stepText(s step) string {
+	if s.Op == "viaptr" {
+		return "Go: keptPointer.X = " + s.Go.Render()
+	}
 	if s.Op == "gomut" || s.Op == "godel" {
 		if s.Go != nil {
 			return fmt.Sprintf("Go: [%s] = %s", s.Key, s.Go.Render())
@@ -892,6 +968,9 @@ func checkHist(hc histCase) harness.Outcome {
 			if e.asserted {
 				ok := false
 				for _, a := range e.accept {
+					if st.alias && e.setAlias >= 0 {
+						a = syncAlias(c, a) // PI points at In: whatever In now holds shows through PI
+					}
 					if a.Equal(o.Go) {
 						ok = true
 					}
@@ -926,6 +1005,12 @@ func checkHist(hc histCase) harness.Outcome {
 			if e.delExpando != "" {
 				delete(st.expando, e.delExpando)
 			}
+			if e.keep != nil {
+				st.kept = e.keep
+			}
+			if e.setAlias > 0 {
+				st.alias = true
+			}
 			classes = append(classes, "outcome:done")
 		}
 		// by-value slice: a Go-side element write is visible iff the backing array is still shared
@@ -945,6 +1030,9 @@ func checkHist(hc histCase) harness.Outcome {
 		}
 		if m := checkView(c, o, st.expando); m != "" {
 			return fail(i, m)
+		}
+		if e.setAlias < 0 && !threw { // a refused write to PI leaves it pointing where it did
+			st.alias = false
 		}
 		st.g, st.shared = o.Go, o.Shared
 		if c.Kind == "slice" && len(listGV(o.Go).Elems) != len(listGV(hc.Cont.Init).Elems) {
@@ -988,4 +1076,16 @@ func stepThrows(s step) bool {
 		}
 	}
 	return false
+}
+
+// syncAlias: in an Outer whose PI was assigned the field In, PI shows In's contents.
+func syncAlias(c contSpec, g m16.GV) m16.GV {
+	styp := m16.TypeOf(c.T)
+	in, ok1 := styp.FieldByName("In")
+	pi, ok2 := styp.FieldByName("PI")
+	if !ok1 || !ok2 {
+		return g
+	}
+	sg := structGV(c, g)
+	return rewrap(g, m16.SetPath(sg, styp, pi.Index, m16.Ptr(m16.GetPath(sg, in.Index))))
 }
